@@ -50,18 +50,23 @@ def run(chk, replay=None):
         raise MachineryError('mpmath not available (run bin/setup)')
     quick = chk.tier == 'quick'
     rng = random.Random(chk.seed + 1010)
-    world = World()
+    world = World(ncell=3)       # 3 cells: sampled+observed, sampled+unobserved and never-sampled cells can coexist
     path = os.path.join(chk.tmp, 'fc.csv')
     chk.rule = ('cases = every forecast of <=2 (thorough 3) synthetic catalogs of <=2 events on 2 cells x 2 magnitude bins x every '
                 'observation of <=2 events from TLC, in memory and streamed from file; plus random forecasts of up to 200 catalogs. '
                 'non-trivial = distinct (forecast, observation) with an empty catalog, an empty observation, an observed event in a '
                 'never-sampled cell, or several events per cell')
-    res = chk.tlc('CatEval', 'MC_CatEval.cfg' if quick else 'MCT_CatEval.cfg', timeout=1800)
-    res = chk.tlc('GenCatEval', 'Gen_CatEval.cfg' if quick else 'GenT_CatEval.cfg', workers=1, coverage=False, count_states=False, timeout=1800)
+    res = chk.tlc('CatEval', 'MC_CatEval.cfg', timeout=1800)
+    res = chk.tlc('GenCatEval', 'Gen_CatEval.cfg', workers=1, coverage=False, count_states=False, timeout=1800)
     cases = res.tagged.get('CASE', [])
-    if len(cases) < 3000:
+    if len(cases) < 20000:
         raise MachineryError('Gen produced %d cases' % len(cases))
-    chk.log('Gen: %d cases' % len(cases))
+    if not quick:
+        chk.tlc('CatEval', 'MCT_CatEval.cfg', timeout=1800)
+        res = chk.tlc('GenCatEval', 'GenT_CatEval.cfg', workers=1, coverage=False, count_states=False, timeout=1800)
+        more = res.tagged.get('CASE', [])
+        cases = cases[::2] + more[::6]
+    chk.log('Gen: %d cases to drive' % len(cases))
 
     TESTS = [('n', ce.number_test, {'verbose': False}), ('s', ce.spatial_test, {'verbose': False}),
              ('pl', ce.pseudolikelihood_test, {'verbose': False}), ('m', ce.magnitude_test, {'verbose': False}),
@@ -145,27 +150,27 @@ def run(chk, replay=None):
         return None
 
     records, runs = [], []
-    step = 2 if quick else 1
+    step = 12 if quick else 1
     for ci, case in enumerate(cases):
-        if quick and ci % step:
+        if quick and (ci + chk.seed) % step:
             continue
         cats_abs, obs_abs = case['cats'], case['obs']
         src = ['list', 'nostore', 'store'][ci % 3]
         got, hists = evaluate(cats_abs, obs_abs, src)
         records.append({'cats': cats_abs, 'obs': obs_abs, 'rm': hists['rm'], 'mll': hists['mll']})
         runs.append((got, src))
-        tot_c = {c: sum(1 for cat in cats_abs for e in cat if e[0] == c) for c in (1, 2)}
+        tot_c = {c: sum(1 for cat in cats_abs for e in cat if e[0] == c) for c in (1, 2, 3)}
         if any(len(c) == 0 for c in cats_abs) or len(obs_abs) == 0 or any(tot_c[e[0]] == 0 for e in obs_abs) or \
                 len(obs_abs) != len({tuple(e) for e in obs_abs}):
             chk.nontrivial('%s|%s' % (cats_abs, obs_abs))
     # random larger forecasts
     for t in range(6 if quick else 60):
         J = rng.choice([5, 30, 200])
-        cats_abs = [[(rng.choice([1, 1, 2]) if t % 2 else 1, rng.choice([1, 2])) for _ in range(rng.choice([0, 1, 2, 5]))] for _ in range(J)]
+        cats_abs = [[(rng.choice([1, 1, 2, 3]) if t % 3 == 0 else (rng.choice([1, 2]) if t % 3 == 1 else 1), rng.choice([1, 2])) for _ in range(rng.choice([0, 1, 2, 5]))] for _ in range(J)]
         if sum(map(len, cats_abs)) == 0:
             cats_abs[0] = [(1, 1)]
         cats_abs = [sorted(c) for c in cats_abs]
-        obs_abs = sorted((rng.choice([1, 2]), rng.choice([1, 2])) for _ in range(rng.choice([0, 1, 3, 8])))
+        obs_abs = sorted((rng.choice([1, 2, 3]), rng.choice([1, 2])) for _ in range(rng.choice([0, 1, 3, 8])))
         src = ['list', 'nostore', 'store'][t % 3]
         got, hists = evaluate(cats_abs, obs_abs, src)
         records.append({'cats': [[list(e) for e in c] for c in cats_abs], 'obs': [list(e) for e in obs_abs], 'rm': hists['rm'], 'mll': hists['mll']})
